@@ -42,6 +42,7 @@ func (a *valloc) isTunnel() bool {
 }
 
 type vblock struct {
+	key        model.BlockKey
 	cidr       string
 	host       string // affinity host ("" if none)
 	nonNil     int    // allocated ordinals, including ones in cooldown
@@ -116,7 +117,7 @@ func (w *world) deliverSync(e syncEvt) {
 			b := e.kvp.Value.(*model.AllocationBlock)
 			as, nonNil, cold := blockAllocs(cidr, b)
 			old := w.V[cidr]
-			nb := &vblock{cidr: cidr, nonNil: nonNil, cold: cold, allocs: map[string]*valloc{}, emptySince: -1}
+			nb := &vblock{key: k, cidr: cidr, nonNil: nonNil, cold: cold, allocs: map[string]*valloc{}, emptySince: -1}
 			if b.Affinity != nil {
 				if h, ok := strings.CutPrefix(*b.Affinity, "host:"); ok {
 					nb.host = h
@@ -126,6 +127,9 @@ func (w *world) deliverSync(e syncEvt) {
 				na := &valloc{salloc: sa, anchor: w.vnow}
 				if old != nil {
 					if oa, ok := old.allocs[na.id()]; ok {
+						if oa.seq != na.seq {
+							w.c.Count("allocations_resequenced_in_place", 1)
+						}
 						if oa.seq == na.seq {
 							// same allocation object in the controller: timers keep running
 							na.anchor, na.absentSeen, na.scans = oa.anchor, oa.absentSeen, oa.scans
